@@ -15,7 +15,14 @@ git apply --exclude=_demo.py "$PATCH" || { echo "PATCH DOES NOT APPLY"; git -C /
 echo "--- demo with change (expect non-zero)"
 PYTHONPATH=$W timeout 300 /venv/bin/python "$DEMO" >/tmp/mutcheck/demo_mut.$$ 2>&1; echo "exit=$?"; tail -3 /tmp/mutcheck/demo_mut.$$
 echo "--- existing tests with change"
-/venv/bin/python -m pytest -q -p no:cacheprovider --timeout=900 -k "not test_aperpe and not test_icp_broadcasting1 and not test_icp_broadcasting2 and not test_icp_laserscan_data and not test_epnp_highdim and not test_epnp_nonbatch and not test_epnp_random" 2>&1 | tail -3
+# (some tests use unseeded random data and fail once in a while on the unchanged tree too, e.g. test_optim_anybatch:
+#  a failing run is repeated up to twice and the last outcome is reported)
+for attempt in 1 2 3; do
+  /venv/bin/python -m pytest -q -p no:cacheprovider --timeout=900 -k "not test_aperpe and not test_icp_broadcasting1 and not test_icp_broadcasting2 and not test_icp_laserscan_data and not test_epnp_highdim and not test_epnp_nonbatch and not test_epnp_random" > /tmp/mutcheck/tests.$$ 2>&1
+  grep -q " failed" /tmp/mutcheck/tests.$$ || break
+  grep "^FAILED" /tmp/mutcheck/tests.$$ | head -3 | sed "s/^/   attempt $attempt: /"
+done
+tail -3 /tmp/mutcheck/tests.$$
 echo "--- our check ($TIER) against the changed tree"
 cd /verif
 VERIF_REPO=$W bin/check "$PID" --tier "$TIER" > /tmp/mutcheck/check.$$ 2>&1; RC=$?
